@@ -36,6 +36,9 @@ func checkC10(c *Ctx, r *Report) {
 	c10Arg(c, r, a)
 	c10Req(c, r, a, "C10.REQ")
 	c10ArgFrozen(c, r, a)
+	if ev, w := c.skipEval(), c.selWalker(); ev != nil && w != nil {
+		importRulesFrom(c, r, "C09", func(c *Ctx, sub *Report) { c09Only(c, sub, w, ev, c.resolverReaching()) }, "C10.EVERYSEL", "every selection the directives do not exclude is dispatched, and so checked for existence and arguments (C09.ONLY): a selection passed over because its response key is already present is never looked at", "C09.ONLY")
+	}
 	importRulesFrom(c, r, "C04", func(c *Ctx, sub *Report) { c04Arms(c, sub, a) }, "C10.REQVAR", "a required argument given as a variable is only refused through the coercion of the variable's value to the argument's declared type (NonNull.CoerceIn of nil): the substitution arm for variables coerces on every path on which a declared type exists (C04.ARMS)", "C04.ARMS")
 	c10Dirs(c, r)
 	c10Cond(c, r)
